@@ -957,15 +957,17 @@ func postChecks(c *StepCase, res *RunResult) *Violation {
 		// other call forms: whatever a fresh runtime admits under this limit, this
 		// runtime must admit after the exit (a leaked counter or context shifts it)
 		forms := recursionForms("__q")
-		fi := int(c.Seed % uint64(len(forms)))
-		probe := "var __Q=0;function __q(n){__Q++;return " + forms[fi] + ";}try{__q(0)}catch(__e){}__Q"
-		qv, err, p, pv := protectedRun(vm, probe)
-		if p || err != nil {
-			return viol("C18", "depth_probe_failed", "form `%s`: err=%v panic=%v", forms[fi], err, pv)
-		}
-		got, _ := qv.ToInteger()
-		if want := freshThreshold(fi, lim); int(got) != want {
-			return viol("C18", "limit_shifted_after_exit", "recursion form `%s` under limit %d: %d levels admitted after this exit, %d on a fresh runtime", forms[fi], lim, got, want)
+		// a form drawn from the case, plus direct eval (accounted for by its own counter)
+		for _, fi := range []int{int(c.Seed % uint64(len(forms))), 5} {
+			probe := "var __Q=0;function __q(n){__Q++;return " + forms[fi] + ";}try{__q(0)}catch(__e){}__Q"
+			qv, err, p, pv := protectedRun(vm, probe)
+			if p || err != nil {
+				return viol("C18", "depth_probe_failed", "form `%s`: err=%v panic=%v", forms[fi], err, pv)
+			}
+			got, _ := qv.ToInteger()
+			if want := freshThreshold(fi, lim); int(got) != want {
+				return viol("C18", "limit_shifted_after_exit", "recursion form `%s` under limit %d: %d levels admitted after this exit, %d on a fresh runtime", forms[fi], lim, got, want)
+			}
 		}
 	}
 	return nil
